@@ -4,6 +4,7 @@ import Swat4.Properties.C10
 import Swat4.Lemmas.QueueSys
 import Swat4.Lemmas.QueueDeliver
 import Swat4.Lemmas.QueuePopBound
+import Swat4.Lemmas.QueueEnqOwner
 /-!
 # C12 — Every queued probe is delivered at most once, on time and in order
 
@@ -1105,6 +1106,49 @@ theorem popMany_fed_witness :
 /-- non-vacuity of `popMany_own_commands_bounded` on that schedule -/
 example : QSys.ownCmds 3 fed fedEvents ≤ 2 * ((1 : Int).toNat + expOf 3 (reach fed fedEvents).pops) + 2 :=
   popMany_own_commands_bounded fed fed_init 3 { op := .popMany 1, pc := .start } 1 rfl rfl fedEvents
+
+end Swat4.C12
+
+/-! # Additions (review round 2), continued: the explicit-bounds clause at the system level -/
+namespace Swat4.C12
+open Swat4 Std
+
+/-- **`never_queued_explicit_sys`** (the clause that holds, for every interleaving): at every reachable state, every
+accepted enqueue record `e` was made by client `e.client`, which is the call `enqueue e.probe after e.expires`; and **if
+that call's ready time was explicit** (`after = some a`) the record's ready time is `a` and it is **strictly before** an
+explicit expiry.  So a queued probe whose ready time is not earlier than its expiry can only stem from an *implicit*
+ready time (`ready_past_expiry_only_implicit`) — the case `implicit_ready_past_expiry_is_queued` exhibits.  (The ghost
+record does not store the flag "explicit"; it is recovered from the producing client, whose `op` never changes.) -/
+theorem never_queued_explicit_sys (s0 : QSys) (h0 : s0.Init) (es : List QSysEv) (e : GEnq) (he : e ∈ (reach s0 es).enqs) :
+    ∃ (c : QClient) (after : GoTime), (reach s0 es).sys.clients[e.client]? = some c ∧
+      c.op = .enqueue e.probe after e.expires ∧
+      ∀ a, after = some a → e.ready = a ∧ ∀ b, e.expires = some b → a < b :=
+  ((EnqInv.init h0).run es).owner e he
+
+/-- an accepted enqueue whose ready time is not earlier than its expiry was made with an implicit ready time -/
+theorem ready_past_expiry_only_implicit (s0 : QSys) (h0 : s0.Init) (es : List QSysEv) (e : GEnq)
+    (he : e ∈ (reach s0 es).enqs) (x : Int) (hx : e.expires = some x) (hge : x ≤ e.ready) :
+    ∃ c, (reach s0 es).sys.clients[e.client]? = some c ∧ c.op = .enqueue e.probe none (some x) := by
+  obtain ⟨c, after, hc, hop, hexp⟩ := never_queued_explicit_sys s0 h0 es e he
+  cases after with
+  | none => exact ⟨c, hc, by rw [hop, hx]⟩
+  | some a =>
+    obtain ⟨h1, h2⟩ := hexp a rfl
+    have := h2 x hx
+    omega
+
+set_option maxRecDepth 100000 in
+/-- non-vacuity: on the witness system (producer 0: `enqueue wp1 (some 50) none`) the record of the accepted enqueue is
+attributed to client 0 with the explicit ready time 50 -/
+example : ∃ c, (reach witness [.run 0]).sys.clients[0]? = some c ∧ c.op = .enqueue wp1 (some 50) none := by
+  have henqs : (reach witness [.run 0]).enqs = [⟨0, 0, wp1, none, 50, 100⟩] := by rfl
+  obtain ⟨c, after, hc, hop, hexp⟩ := never_queued_explicit_sys witness witness_init [.run 0] ⟨0, 0, wp1, none, 50, 100⟩
+    (by rw [henqs]; exact List.mem_singleton.2 rfl)
+  have hop0 : ((reach witness [.run 0]).sys.clients[0]?).map (·.op) = some (.enqueue wp1 (some 50) none) := by rfl
+  exact ⟨c, hc, by
+    have hc' : (reach witness [.run 0]).sys.clients[0]? = some c := hc
+    rw [hc'] at hop0
+    simpa using hop0⟩
 
 end Swat4.C12
 
